@@ -367,7 +367,7 @@ func (env *evalEnv) post(events []Event, posters int, start <-chan struct{}) []s
 	var errs []string
 	var wg sync.WaitGroup
 	proc := env.erp.Processor
-	stopKick := make(chan struct{})
+	stopKick, kickDone := make(chan struct{}), make(chan struct{})
 	{
 		// Keep the pool ticking: a task queued between a worker's empty poll and its
 		// wait is only picked up at the next AddTask (known C09 behaviour), and
@@ -375,6 +375,7 @@ func (env *evalEnv) post(events []Event, posters int, start <-chan struct{}) []s
 		// declares an empty sink for kind c13.tick; an event for it every
 		// millisecond is that next AddTask. No verdict depends on it or on time.
 		go func() {
+			defer close(kickDone)
 			tk := time.NewTicker(time.Millisecond)
 			defer tk.Stop()
 			var outstanding atomic.Int32
@@ -448,6 +449,7 @@ func (env *evalEnv) post(events []Event, posters int, start <-chan struct{}) []s
 		os.Exit(4)
 	}
 	close(stopKick)
+	<-kickDone // no AddEvent may be in flight when the processor is shut down: a task queued after the last worker left would make Finish spin for ever
 	env.logger.mu.Lock()
 	lines := append([]string{}, env.logger.lines...)
 	env.logger.mu.Unlock()
